@@ -180,6 +180,9 @@ func (g *genState) write(malformed bool) *Write {
 		}
 	}
 	acl := g.flavour == "acl"
+	if acl && r.Intn(100) < 30 {
+		return g.aclWrite()
+	}
 	if r.Intn(100) < 16 {
 		return g.comboWrite()
 	}
@@ -218,36 +221,44 @@ func (g *genState) write(malformed bool) *Write {
 	case x < 88 && !acl:
 		return &Write{K: "kv", Name: pick(r, "a", "b"), Desc: pick(r, "1", "2")}
 	default:
-		switch y := r.Intn(10); {
-		case y < 3:
-			p := r.Intn(2)
-			g.pols[p] = true
-			return &Write{K: "pol", Pol: p, Desc: pick(r, "d1", "d2", "d3")}
-		case y < 4 && len(g.pols) > 0:
-			g.role = true
-			w := &Write{K: "role", Desc: pick(r, "r1", "r2")}
-			for p := range g.pols {
+		return g.aclWrite()
+	}
+}
+
+// aclWrite: a policy, role or token write, or a token deletion. Tokens link policies directly and/or
+// through the one role; a role is written once a policy exists (a policy is written first otherwise)
+func (g *genState) aclWrite() *Write {
+	r := g.r
+	switch y := r.Intn(10); {
+	case y < 2 || (y < 4 && len(g.pols) == 0):
+		p := r.Intn(2)
+		g.pols[p] = true
+		return &Write{K: "pol", Pol: p, Desc: pick(r, "d1", "d2", "d3")}
+	case y < 4:
+		g.role = true
+		w := &Write{K: "role", Desc: pick(r, "r1", "r2")}
+		for p := 0; p < 2; p++ {
+			if g.pols[p] && (len(w.Links) == 0 || r.Intn(2) == 0) {
 				w.Links = append(w.Links, p)
-				break
 			}
-			return w
-		case y < 9:
-			w := &Write{K: "tok", Tok: r.Intn(3), Desc: pick(r, "t1", "t2", "t3")}
-			for p := 0; p < 2; p++ {
-				if g.pols[p] && r.Intn(2) == 0 {
-					w.Links = append(w.Links, p)
-				}
-			}
-			if g.role && r.Intn(3) == 0 {
-				w.Role = true
-			}
-			g.tokens[w.Tok] = true
-			return w
-		default:
-			t := r.Intn(3)
-			delete(g.tokens, t)
-			return &Write{K: "dtok", Tok: t}
 		}
+		return w
+	case y < 9:
+		w := &Write{K: "tok", Tok: r.Intn(3), Desc: pick(r, "t1", "t2", "t3")}
+		for p := 0; p < 2; p++ {
+			if g.pols[p] && r.Intn(2) == 0 {
+				w.Links = append(w.Links, p)
+			}
+		}
+		if g.role && r.Intn(2) == 0 {
+			w.Role = true
+		}
+		g.tokens[w.Tok] = true
+		return w
+	default:
+		t := r.Intn(3)
+		delete(g.tokens, t)
+		return &Write{K: "dtok", Tok: t}
 	}
 }
 
